@@ -402,6 +402,56 @@ fn into_iter_arr_n<T: Elem, const N: usize>(out: &mut Out, elem: &str, p: &Plan)
     do_kind(out, "into_iter_arr_ref", elem, base, 1, p, &|| konst::iter::into_iter!(&arr_ref), &ora);
 }
 
+/// the six iterator kinds that take a size, on one slice with one size
+fn sized_kinds<T: Elem>(out: &mut Out, elem: &str, base: &[T], n: usize, p: &Plan) {
+    do_kind(out, "windows", elem, base, n, p, &|| ks::windows(base, n), &|| Ora {
+        it: Box::new(base.windows(n).map(move |c| view(base, c))),
+        flipped: false,
+        mirror: Mirror::NoObs,
+        base,
+    });
+    do_kind(out, "chunks", elem, base, n, p, &|| ks::chunks(base, n), &|| Ora {
+        it: Box::new(base.chunks(n).map(move |c| view(base, c))),
+        flipped: false,
+        mirror: Mirror::NoObs,
+        base,
+    });
+    do_kind(out, "rchunks", elem, base, n, p, &|| ks::rchunks(base, n), &|| Ora {
+        it: Box::new(base.rchunks(n).map(move |c| view(base, c))),
+        flipped: false,
+        mirror: Mirror::NoObs,
+        base,
+    });
+    do_kind(out, "chunks_exact", elem, base, n, p, &|| ks::chunks_exact(base, n), &|| Ora {
+        it: Box::new(base.chunks_exact(n).map(move |c| view(base, c))),
+        flipped: false,
+        mirror: Mirror::CE(base.chunks_exact(n)),
+        base,
+    });
+    do_kind(out, "rchunks_exact", elem, base, n, p, &|| ks::rchunks_exact(base, n), &|| Ora {
+        it: Box::new(base.rchunks_exact(n).map(move |c| view(base, c))),
+        flipped: false,
+        mirror: Mirror::RCE(base.rchunks_exact(n)),
+        base,
+    });
+    match n {
+        0 => array_chunks_n::<T, 0>(out, elem, base, p),
+        1 => array_chunks_n::<T, 1>(out, elem, base, p),
+        2 => array_chunks_n::<T, 2>(out, elem, base, p),
+        3 => array_chunks_n::<T, 3>(out, elem, base, p),
+        4 => array_chunks_n::<T, 4>(out, elem, base, p),
+        5 => array_chunks_n::<T, 5>(out, elem, base, p),
+        6 => array_chunks_n::<T, 6>(out, elem, base, p),
+        7 => array_chunks_n::<T, 7>(out, elem, base, p),
+        8 => array_chunks_n::<T, 8>(out, elem, base, p),
+        9 => array_chunks_n::<T, 9>(out, elem, base, p),
+        10 => array_chunks_n::<T, 10>(out, elem, base, p),
+        16 => array_chunks_n::<T, 16>(out, elem, base, p),
+        64 => array_chunks_n::<T, 64>(out, elem, base, p),
+        _ => {}
+    }
+}
+
 fn run_type<T: Elem>(elem: &str, max_len: usize, p: &Plan, out: &mut Out) {
     for len in 0..=max_len {
         let v: Vec<T> = (0..len).map(T::mk).collect();
@@ -447,57 +497,94 @@ fn run_type<T: Elem>(elem: &str, max_len: usize, p: &Plan, out: &mut Out) {
         let mut sizes: Vec<usize> = (0..=len + 1).collect();
         sizes.extend_from_slice(&[isize::MAX as usize + 1, usize::MAX - 1, usize::MAX]);
         for n in sizes {
-            do_kind(out, "windows", elem, base, n, p, &|| ks::windows(base, n), &|| Ora {
-                it: Box::new(base.windows(n).map(move |c| view(base, c))),
-                flipped: false,
-                mirror: Mirror::NoObs,
-                base,
-            });
-            do_kind(out, "chunks", elem, base, n, p, &|| ks::chunks(base, n), &|| Ora {
-                it: Box::new(base.chunks(n).map(move |c| view(base, c))),
-                flipped: false,
-                mirror: Mirror::NoObs,
-                base,
-            });
-            do_kind(out, "rchunks", elem, base, n, p, &|| ks::rchunks(base, n), &|| Ora {
-                it: Box::new(base.rchunks(n).map(move |c| view(base, c))),
-                flipped: false,
-                mirror: Mirror::NoObs,
-                base,
-            });
-            do_kind(out, "chunks_exact", elem, base, n, p, &|| ks::chunks_exact(base, n), &|| Ora {
-                it: Box::new(base.chunks_exact(n).map(move |c| view(base, c))),
-                flipped: false,
-                mirror: Mirror::CE(base.chunks_exact(n)),
-                base,
-            });
-            do_kind(out, "rchunks_exact", elem, base, n, p, &|| ks::rchunks_exact(base, n), &|| Ora {
-                it: Box::new(base.rchunks_exact(n).map(move |c| view(base, c))),
-                flipped: false,
-                mirror: Mirror::RCE(base.rchunks_exact(n)),
-                base,
-            });
-            match n {
-                0 => array_chunks_n::<T, 0>(out, elem, base, p),
-                1 => array_chunks_n::<T, 1>(out, elem, base, p),
-                2 => array_chunks_n::<T, 2>(out, elem, base, p),
-                3 => array_chunks_n::<T, 3>(out, elem, base, p),
-                4 => array_chunks_n::<T, 4>(out, elem, base, p),
-                5 => array_chunks_n::<T, 5>(out, elem, base, p),
-                6 => array_chunks_n::<T, 6>(out, elem, base, p),
-                7 => array_chunks_n::<T, 7>(out, elem, base, p),
-                8 => array_chunks_n::<T, 8>(out, elem, base, p),
-                9 => array_chunks_n::<T, 9>(out, elem, base, p),
-                10 => array_chunks_n::<T, 10>(out, elem, base, p),
-                _ => {}
-            }
+            sized_kinds(out, elem, base, n, p);
         }
     }
 }
 
-pub fn run(tier: &str, _seed: u64, out: &mut Out) {
+/// a random history of 10..=80 steps over f/b (`with_r`: also `r`, at least one), with a random
+/// bias between the two ends (all front, all back, mostly one end, even)
+fn rand_hist(rng: &mut Rng, with_r: bool) -> Vec<u8> {
+    let d = 10 + rng.below(71) as usize;
+    let pf = [0u64, 8, 1, 7, 4, 4, 3, 5][rng.below(8) as usize];
+    let mut h: Vec<u8> = (0..d)
+        .map(|_| if with_r && rng.below(9) == 0 { b'r' } else if rng.below(8) < pf { b'f' } else { b'b' })
+        .collect();
+    if with_r && !h.contains(&b'r') {
+        let k = rng.below(d as u64) as usize;
+        h[k] = b'r';
+    }
+    h
+}
+
+/// one plan of the random stream: a single f/b history (run forward and `.rev()` first), a single
+/// f/b/r history, a single copy triple
+fn rand_plan(rng: &mut Rng) -> Plan {
+    let h1: Vec<u8> = rand_hist(rng, true)[..rng.below(30) as usize % 10].to_vec();
+    let cut = |mut h: Vec<u8>, rng: &mut Rng| {
+        h.truncate(10 + rng.below(31) as usize);
+        h
+    };
+    let (h2, h3) = (cut(rand_hist(rng, false), rng), cut(rand_hist(rng, false), rng));
+    Plan { fb: vec![rand_hist(rng, false)], fbr: vec![rand_hist(rng, true)], copy: vec![(h1, h2, h3)], copy_max_len: usize::MAX }
+}
+
+/// seeded stream of LARGE slices: lengths 13..=120, chunk / window sizes from 1 up to len+3 and the
+/// sizes 7, 16, 64, random front/back(/rev) histories of 10..=80 steps (crossing exhaustion for all
+/// but the longest element iterators), all 8 iterator kinds
+fn run_random<T: Elem>(elem: &str, cases: usize, rng: &mut Rng, out: &mut Out) {
+    for c in 0..cases {
+        let len = if c % 2 == 0 { 13 + rng.below(28) as usize } else { 13 + rng.below(108) as usize };
+        let v: Vec<T> = (0..len).map(T::mk).collect();
+        let base: &[T] = &v;
+        let p = rand_plan(rng);
+        let ora = || Ora {
+            it: Box::new(base.iter().map(move |x| view(base, core::slice::from_ref(x)))),
+            flipped: false,
+            mirror: Mirror::Iter(base.iter()),
+            base,
+        };
+        do_kind(out, "iter", elem, base, 1, &p, &|| ks::iter(base), &ora);
+        let p = rand_plan(rng);
+        if c % 2 == 0 {
+            do_kind(out, "into_iter", elem, base, 1, &p, &|| konst::iter::into_iter!(base), &ora);
+        } else {
+            do_kind(out, "into_iter_ref", elem, base, 1, &p, &|| konst::iter::into_iter!(&base), &ora);
+        }
+        let p = rand_plan(rng);
+        do_kind(out, "copied", elem, base, 1, &p, &|| ks::iter_copied(base), &|| Ora {
+            it: Box::new(base.iter().copied().map(|x: T| x.show_val())),
+            flipped: false,
+            mirror: Mirror::Iter(base.iter()),
+            base,
+        });
+        // sizes: two anywhere in 1..=len+3, one small (an array_chunks size), one near the length
+        // (len-2..=len+3), and 7, 16, 64
+        let l = len as u64;
+        let sizes = [
+            1 + rng.below(l + 3) as usize,
+            1 + rng.below(l + 3) as usize,
+            1 + rng.below(10) as usize,
+            len - 2 + rng.below(6) as usize,
+            len / 2 + rng.below(3) as usize,
+            7,
+            16,
+            64,
+        ];
+        for n in sizes {
+            let p = rand_plan(rng);
+            sized_kinds(out, elem, base, n, &p);
+        }
+    }
+}
+
+pub fn run(tier: &str, seed: u64, out: &mut Out) {
     let p = plan(tier);
     let max_len = if tier == "thorough" { 9 } else { 7 };
+    let mut rng = Rng(seed ^ 0xC08_1A26E);
+    let cases = if tier == "thorough" { 200 } else { 20 };
+    run_random::<u8>("u8", cases, &mut rng, out);
+    run_random::<()>("zst", cases / 2, &mut rng, out);
     run_type::<u8>("u8", max_len, &p, out);
     run_type::<()>("zst", max_len, &p, out);
 }
